@@ -34,9 +34,9 @@ class LayoutMismatch(Exception):
     pass
 
 
-def compile_terms(topo, symtype, numeric=None, compact=0, more_out=False, flags=None, declare=None, order=None, check_names=False, dual_route=False, builder=None, same_display_names=False):
+def compile_terms(topo, symtype, numeric=None, compact=0, more_out=False, flags=None, declare=None, order=None, check_names=False, dual_route=False, builder=None, same_display_names=False, rename=None):
     F, built, P, declared = runs.cas_function(topo, symtype, numeric, compact, more_out, flags, order, declare, dual_route, builder=builder,
-                                              same_display_names=same_display_names)
+                                              same_display_names=same_display_names, rename=rename)
     ins, outs = layout.expected(topo, built, compact, list(declared), more_out)
     got_in = [(F.name_in(i), F.size1_in(i) * F.size2_in(i)) for i in range(F.n_in())]
     got_out = [(F.name_out(i), F.size1_out(i) * F.size2_out(i)) for i in range(F.n_out())]
